@@ -540,3 +540,24 @@ def run_program_access(ctx, rid):
     eb, et = v.one(r"vm::Vm::exec_ops$")
     ok = et is not None and v.rooted_at(positional(M.peel(v.pv.of_operand(et["args"][2]), transparent=False)), r"access::Access::new$") is not None
     ctx.ob(rid, "run_program:vm-runs-with-that-access", ok, f.loc(eb) if eb is not None else f.loc(0), "exec_ops(.., access, ..) receives the Access built above", f)
+
+
+def compute_inputs_wiring(ctx, rid):
+    """step_op hands `compute` the executing VM's own live state: its pc, stack, memory, a clone of its parent-memory stack
+    (which is also the nesting-depth counter), halt flag, repeat stack, cache, and the step's own access / readers / limits."""
+    prog = ctx.prog
+    f = prog.fn("essential_vm::sync::step_op")
+    if not ctx.anchor(rid, "fn step_op", f):
+        return
+    ctx.saw(f)
+    pv = prog.prov(f)
+    aggs = [(bb, st["rv"]) for bb, b in enumerate(f.blocks) for st in b["stmts"]
+            if st["k"] == "assign" and st["rv"].get("k") == "aggr" and st["rv"].get("agg") == "adt" and "ComputeInputs" in str(st["rv"].get("adt"))]
+    if not ctx.ob(rid, "step_op:one-ComputeInputs", len(aggs) == 1, f.loc(aggs[0][0]) if aggs else f.loc(0), "%d ComputeInputs aggregates" % len(aggs), f):
+        return
+    bb, rv = aggs[0]
+    got = dict(zip(rv["fields"], [norm(M.render(positional(M.peel(pv.of_operand(o), transparent=False)))) for o in rv["ops"]]))
+    want = {"pc": "$3.pc", "stack": "$3.stack", "memory": "$3.memory", "parent_memory": "<std::vec::Vec<T, A> as std::clone::Clone>::clone($3.parent_memory)", "halt": "$3.halt",
+            "repeat": "$3.repeat", "cache": "<std::sync::Arc<T, A> as std::clone::Clone>::clone($3.cache)", "access": "$1", "state_reads": "$4", "op_access": "$5", "op_gas_cost": "$6", "gas_limit": "$7"}
+    for k, w in want.items():
+        ctx.ob(rid, "compute-inputs.%s" % k, got.get(k) == w, f.loc(bb), "ComputeInputs.%s = %s; expected %s" % (k, got.get(k), w), f)
